@@ -23,25 +23,33 @@ SETTER = 'pygom.model.base_ode_model:BaseOdeModel.parameters.setter'
 F = 'pygom.model.base_ode_model:BaseOdeModel.parameters.setter'
 
 
+from pyvc.values import name_code
+TKEY = z3.IntVal(name_code('t'))
+
+
 class PDict(Model):
-    """_paramDict: declared parameter name -> its sympy Symbol"""
+    """_paramDict: declared parameter name -> its sympy Symbol.  The constructor also files the TIME symbol in this dictionary
+    under 't' (base_ode_model.py: self._paramDict['t'] = self._t), which is not a parameter and not in _paramList"""
     tags = frozenset({'dict'})
 
     def _t(self, key):
         if isinstance(key, SName):
             return key.term
+        if isinstance(key, str):
+            return z3.IntVal(name_code(key))
         raise Unsupported("parameter dictionary key %r" % (key,))
 
     def py_contains(self, it, key):
         if isinstance(key, SParamSymbol):
             return False        # a Symbol is never equal to a str key
-        return pdeclared(self._t(key))
+        t = self._t(key)
+        return z3.Or(pdeclared(t), t == TKEY)
 
     def py_getitem(self, it, key):
         t = self._t(key)
-        if not it.ctx.branch(pdeclared(t), 'paramDict-key'):
+        if not it.ctx.branch(z3.Or(pdeclared(t), t == TKEY), 'paramDict-key'):
             raise PyRaise(ExcVal('KeyError', (key,), {'KeyError', 'LookupError', 'Exception', 'BaseException'}))
-        return SParamSymbol(t)
+        return SParamSymbol(t)          # for 't': the time symbol, a Symbol named t that no entry of _paramList equals
 
 
 class PList(NameList):
@@ -65,6 +73,7 @@ def model(vc, with_prior=False):
     j, n = z3.Int('wf_j'), z3.Int('wf_n')
     vc.assume(z3.ForAll([j], z3.Implies(z3.And(j >= 0, j < nP), z3.And(pdeclared(pid(j)), pix(pid(j)) == j)), patterns=[pid(j)]))
     vc.assume(z3.ForAll([n], z3.Implies(pdeclared(n), z3.And(pix(n) >= 0, pix(n) < nP, pid(pix(n)) == n)), patterns=[pix(n)]))
+    vc.assume(z3.Not(pdeclared(TKEY)))        # time is not a parameter (a model that declares a parameter called t is out of scope)
     varcls = vc.cls('pygom.model.ode_variable:ODEVariable')
     cls = vc.cls('pygom.model.base_ode_model:BaseOdeModel')
     fields = {'_paramList': PList(nP, pid, pix, pdeclared, varcls), '_paramDict': PDict(), '_stochasticParam': None}
@@ -92,20 +101,22 @@ def REL(d, pv, nP):
     return z3.ForAll([j], z3.Implies(z3.And(j >= 0, j < nP), z3.Select(pv.arr, j) == lookup(d, j)))
 
 
-def final_loop(vc, obj, nP):
-    """loop 3: the unrolling of the stored dictionary into the positional value list"""
+def final_loop(vc, obj, nP, reject=False):
+    """loop 3: the unrolling of the NEW holder (local param_out) into a NEW positional list (local param_value); both are stored on
+    the object only after the loop, so an input rejected here leaves the object untouched.
+    reject=True: the invariant used to show that the loop cannot run to its end when the holder has a key that is no parameter"""
     def inv(view, r):
-        d, pv = obj.fields['_parameters'], obj.fields['_paramValue']
-        j = z3.Int('i3_j')
+        d, pv = view['param_out'], view['param_value']
+        j, n, kd = z3.Int('i3_j'), z3.Int('i3_n'), z3.Int('i3_k')
         nm = pid(j)
         upto = z3.If(z3.And(d.dom(nm, 1), d.pos(nm, 1) < r), d.val(nm, 1), z3.If(z3.And(d.dom(nm, 0), d.pos(nm, 0) < r), d.val(nm, 0), 0.0))
-        return [('values of the keys processed so far, the Symbol key of a name taking precedence',
-                 z3.And(to_num(pv.length) == nP, z3.ForAll([j], z3.Implies(z3.And(j >= 0, j < nP), z3.Select(pv.arr, j) == upto))))]
-
-    def inplace(it, view):
-        pv = obj.fields['_paramValue']
-        obj.fields['_paramValue'] = SMutList(pv.length, z3.Array(it.ctx._name('paramValue'), I, R))
-    vc.loop(F, 3, inv, inplace=(inplace,))
+        out = [('values of the keys processed so far, the Symbol key of a name taking precedence',
+                z3.And(to_num(pv.length) == nP, z3.ForAll([j], z3.Implies(z3.And(j >= 0, j < nP), z3.Select(pv.arr, j) == upto))))]
+        if reject:
+            out = [('every key processed so far names a declared parameter',
+                    z3.And(to_num(pv.length) == nP, z3.ForAll([n, kd], z3.Implies(z3.And(d.dom(n, kd), d.pos(n, kd) < r), pdeclared(n)))))]
+        return out
+    vc.loop(F, 3, inv, modifies=('param_value',))
 
 
 def post_common(vc, obj, nP):
@@ -339,25 +350,87 @@ def reject_length(vc):
     vc.canary('canary: reachable', z3.BoolVal(False))
 
 
-@contract('C09/parameters/reject-unknown-pair-name', ['C09'], SETTER)
-def reject_pair(vc):
-    """a pair list containing a name that is not a declared parameter is rejected; nothing is bound"""
-    nP, obj = model(vc)
-    D0, PV0 = _prior(vc, obj, nP)
-    pn, pv_ = vc.fn('pair_name', I, I), vc.fn('pair_value', I, R)
-    bad = vc.int('bad', ge=0)
-    vc.require('some pair names an undeclared parameter', z3.And(bad < nP, z3.Not(pdeclared(pn(bad)))))
-    params = SList(nP, lambda k: (SName(pn(k)), pv_(k)))
+def indict(n):
+    """the name is a key of _paramDict: a declared parameter, or 't' (the time symbol is filed there too)"""
+    return z3.Or(pdeclared(n), n == TKEY)
 
-    def inv0(view, i):
-        p = z3.Int('r0_p')
-        return [('all pairs processed so far had declared names', z3.ForAll([p], z3.Implies(z3.And(p >= 0, p < i), pdeclared(pn(p)))))]
-    vc.loop(F, 0, inv0, modifies=('param_out',))
-    final_loop(vc, obj, nP)
-    out = vc.call(vc.func(), obj, params)
-    vc.ensure('rejected with an error', not out.returned)
-    _unchanged(vc, obj, PV0)
-    vc.canary('canary: reachable', z3.BoolVal(False))
+
+def _replay_time_key(clause, m):
+    """'t' used as a parameter name (pairs and dict): must be rejected and must leave the values in use and the holder as they were"""
+    import numpy as np
+    from contracts import native
+    from standins import c09 as sc
+    bad = []
+    try:
+        mdl, names = sc._model(2)
+        with native.quiet():
+            mdl.parameters = [1.0, 2.0]
+            for inp in ([(names[1], 0.25), ('t', 7.0)], {'t': 7.0}, {names[0]: 9.0, 't': 7.0}):
+                try:
+                    mdl.parameters = inp
+                    bad.append("%r was accepted" % (inp,))
+                except Exception:
+                    pass
+                if [float(v) for v in mdl._paramValue] != [1.0, 2.0]:
+                    bad.append("after the rejected %r the values in use are %s (were [1.0, 2.0])" % (inp, [float(v) for v in mdl._paramValue]))
+                    break
+                try:
+                    mdl.parameters = {names[1]: 2.0}
+                except Exception as e:
+                    bad.append("after the rejected %r a valid partial update raises %s: %s" % (inp, type(e).__name__, e))
+                    break
+                if [float(v) for v in mdl._paramValue] != [1.0, 2.0]:
+                    bad.append("after the rejected %r and the update {%s: 2.0} the values in use are %s" % (inp, names[1], [float(v) for v in mdl._paramValue]))
+                    break
+    except Exception as e:
+        bad.append("raises %s: %s" % (type(e).__name__, e))
+    return {'reproduced': bool(bad), 'observed': bad[:3], 'input': "m.parameters = [1.0, 2.0]; then [('gamma', 0.25), ('t', 7.0)] / {'t': 7.0} / {'beta': 9.0, 't': 7.0}, each followed by {'gamma': 2.0}"}
+
+
+def make_reject_pair(time_key):
+    @contract('C09/parameters/reject-unknown-pair-name' + ('/time-symbol-name' if time_key else ''), ['C09'], SETTER, replay=_replay_time_key if time_key else None)
+    def reject_pair(vc):
+        nP, obj = model(vc)
+        D0, PV0 = _prior(vc, obj, nP)
+        pn, pv_ = vc.fn('pair_name', I, I), vc.fn('pair_value', I, R)
+        bad = vc.int('bad', ge=0)
+        a, b = z3.Int('pp_a'), z3.Int('pp_b')
+        if not time_key:
+            vc.require('some pair names something that is not in the parameter dictionary', z3.And(bad < nP, z3.Not(indict(pn(bad)))))
+        else:
+            vc.require("every name is a key of the parameter dictionary, one of them is 't' (the time symbol, not a parameter); names are distinct",
+                       z3.And(bad < nP, pn(bad) == TKEY, z3.ForAll([a], z3.Implies(z3.And(a >= 0, a < nP), indict(pn(a)))),
+                              z3.ForAll([a, b], z3.Implies(z3.And(a >= 0, a < nP, b >= 0, b < nP, a != b), pn(a) != pn(b)))))
+        params = SList(nP, lambda k: (SName(pn(k)), pv_(k)))
+        pq, pm = vc.fn('pair_index', I, I), vc.fn('pair_mentions', I, B)
+        n_ = z3.Int('pp_n')
+        if time_key:        # inverse of the pairing (well defined because the names are distinct)
+            vc.assume(z3.ForAll([a], z3.Implies(z3.And(a >= 0, a < nP), z3.And(pm(pn(a)), pq(pn(a)) == a)), patterns=[pn(a)]))
+            vc.assume(z3.ForAll([n_], z3.Implies(pm(n_), z3.And(pq(n_) >= 0, pq(n_) < nP, pn(pq(n_)) == n_)), patterns=[pq(n_)]))
+
+        def inv0(view, i):
+            p = z3.Int('r0_p')
+            d = view['param_out']
+            n, kd = z3.Int('r0_n'), z3.Int('r0_k')
+            out = [('all pairs processed so far named keys of the parameter dictionary', z3.ForAll([p], z3.Implies(z3.And(p >= 0, p < i), indict(pn(p)))))]
+            if time_key:
+                out.append(("the holder has one Symbol key per processed pair ('t' included), in order",
+                            z3.And(d.L == i, z3.ForAll([n, kd], d.dom(n, kd) == z3.And(kd == 1, pm(n), pq(n) < i)),
+                                   z3.ForAll([n], z3.Implies(z3.And(pm(n), pq(n) < i), d.pos(n, 1) == pq(n))))))
+            return out
+        vc.loop(F, 0, inv0, modifies=('param_out',))
+        final_loop(vc, obj, nP, reject=True)
+        out = vc.call(vc.func(), obj, params)
+        vc.ensure('rejected with an error', not out.returned)
+        _unchanged(vc, obj, PV0)
+        vc.canary('canary: reachable', z3.BoolVal(False))
+    reject_pair.__doc__ = ("a pair list that uses 't' (the time symbol, which sits in the parameter dictionary) as a name is rejected; nothing is bound and nothing is lost"
+                           if time_key else "a pair list containing a name that is not a declared parameter is rejected; nothing is bound")
+    return reject_pair
+
+
+make_reject_pair(False)
+make_reject_pair(True)
 
 
 def _replay_rejected_dict(clause, m):
@@ -374,26 +447,44 @@ def _replay_rejected_dict(clause, m):
             'input': "m.parameters = [('gamma', 7.0), ('beta', 6.0)]; m.parameters = {'beta': 2.5, 'zeta': 1.0} (rejected); m.parameters = {'gamma': 3.25}"}
 
 
-@contract('C09/parameters/reject-unknown-dict-key', ['C09'], SETTER, replay=_replay_rejected_dict)
-def reject_key(vc):
-    """a dict with a key that is not a declared parameter (by name or by symbol) is rejected; the positional values in use are untouched"""
-    nP, obj = model(vc)
-    D0, PV0 = _prior(vc, obj, nP)
-    m = vc.int('m', ge=1)
-    vc.require('no more keys than parameters', m <= nP)
-    IN, inn, ink, inv_, inq, inm = input_dict(vc, m, None)
-    bad = vc.int('bad', ge=0)
-    vc.require('some key is not a declared parameter', z3.And(bad < m, z3.Not(pdeclared(inn(bad)))))
+def make_reject_key(time_key):
+    @contract('C09/parameters/reject-unknown-dict-key' + ('/time-symbol-name' if time_key else ''), ['C09'], SETTER,
+              replay=_replay_time_key if time_key else _replay_rejected_dict, max_paths=600)
+    def reject_key(vc):
+        nP, obj = model(vc)
+        D0, PV0 = _prior(vc, obj, nP)
+        m = vc.int('m', ge=1)
+        vc.require('no more keys than parameters', m <= nP)
+        IN, inn, ink, inv_, inq, inm = input_dict(vc, m, None)
+        bad = vc.int('bad', ge=0)
+        q = z3.Int('rk_q')
+        if not time_key:
+            vc.require('some key is not in the parameter dictionary', z3.And(bad < m, z3.Not(indict(inn(bad)))))
+        else:
+            vc.require("every key is in the parameter dictionary, one of them is 't' (as a str or as the time Symbol)",
+                       z3.And(bad < m, inn(bad) == TKEY, z3.ForAll([q], z3.Implies(z3.And(q >= 0, q < m), indict(inn(q))))))
 
-    def inv2(view, k):
-        p = z3.Int('r2_p')
-        return [('all keys processed so far were declared', z3.ForAll([p], z3.Implies(z3.And(p >= 0, p < k), pdeclared(inn(p)))))]
-    vc.loop(F, 2, inv2, modifies=('param_out',))
-    final_loop(vc, obj, nP)
-    out = vc.call(vc.func(), obj, IN)
-    vc.ensure('rejected with an error', not out.returned)
-    _unchanged(vc, obj, PV0)
-    vc.canary('canary: reachable', z3.BoolVal(False))
+        def inv2(view, k):
+            p = z3.Int('r2_p')
+            d = view['param_out']
+            out = [('all keys processed so far were keys of the parameter dictionary', z3.ForAll([p], z3.Implies(z3.And(p >= 0, p < k), indict(inn(p)))))]
+            if time_key:
+                out.append(("the holder has a Symbol key for every processed key ('t' included) and is a proper dict",
+                            z3.ForAll([p], z3.Implies(z3.And(p >= 0, p < k), z3.And(d.dom(inn(p), 1), d.pos(inn(p), 1) >= 0, d.pos(inn(p), 1) < d.L)))))
+            return out
+        vc.loop(F, 2, inv2, modifies=('param_out',))
+        final_loop(vc, obj, nP, reject=True)
+        out = vc.call(vc.func(), obj, IN)
+        vc.ensure('rejected with an error', not out.returned)
+        _unchanged(vc, obj, PV0)
+        vc.canary('canary: reachable', z3.BoolVal(False))
+    reject_key.__doc__ = ("a dict that uses 't' (the time symbol, which sits in the parameter dictionary) as a key is rejected; the values in use and the stored holder are untouched"
+                          if time_key else "a dict with a key that is not a declared parameter (by name or by symbol) is rejected; the values in use and the stored holder are untouched")
+    return reject_key
+
+
+make_reject_key(False)
+make_reject_key(True)
 
 
 @contract('C09/parameters/reject-too-many-keys', ['C09'], SETTER)
